@@ -83,8 +83,8 @@ func (w *World) setupCallbacks() {
 		cbs.ItemValWrite = func(c *g.Collection, i *g.Item, wr io.WriterAt, off int64) error {
 			w.ev["cb_valwrite"]++
 			chunk := len(i.Val)%7 + 1
-			if len(i.Val) > 4096 {
-				chunk = len(i.Val)/37 + 1 // very large values: a few dozen odd-sized pieces
+			if len(i.Val) > 512 {
+				chunk = len(i.Val)/37 + 1 // larger values: a few dozen odd-sized pieces
 			}
 			for p := 0; p < len(i.Val); p += chunk {
 				e := p + chunk
@@ -103,7 +103,7 @@ func (w *World) setupCallbacks() {
 			w.ev["cb_valread"]++
 			i.Val = make([]byte, n)
 			chunk := int(n)%5 + 1
-			if n > 4096 {
+			if n > 512 {
 				chunk = int(n)/29 + 1
 			}
 			for p := 0; p < int(n); p += chunk {
